@@ -115,6 +115,14 @@ def make_read(rng, k, ads, C, side=1):
                 "".join(a["seq"] for a in present if a["opt"] == "a" and a.get("restr") == "anchor")[:7]
         seq = left + body.upper() + right
         ads = []
+    if C.get("_nfamily") and side == 1 and rng.random() < 0.75:
+        nf = C["_nfamily"]
+        v = list(nf["base"])
+        for i in nf["pos"]:
+            if rng.random() < 0.5:
+                v[i] = "N"
+        seq = ("".join(v) + body.upper()) if nf["opt"] == "g" else (body.upper() + "".join(v))
+        ads = []
     if ads and rng.random() < 0.8:
         ad = pick(rng, ads)
         parts = adapter_seqs(ad)
@@ -143,6 +151,10 @@ def make_read(rng, k, ads, C, side=1):
                 seq = (seq + o2) if other.get("opt", "a") != "g" else (o2 + seq)
         if C.get("revcomp") and rng.random() < 0.5:
             seq = GR.revcomp(seq)
+            if C.get("_repeat") and not ad.get("linked") and rng.random() < 0.6:
+                # the given orientation holds one complete copy as well: the reverse complement is better only
+                # by its total over several rounds
+                seq = (parts[0] + seq) if ad["opt"] == "g" else (seq + parts[0])
     if C.get("polya") and rng.random() < 0.6:
         tail = ["A"] * rng.choice((2, 3, 5, 8, 10))
         if rng.random() < 0.4:
@@ -186,7 +198,8 @@ SCENARIOS = {
             dict(times=3, action="mask"), dict(times=2, action="lowercase"), dict(revcomp=True, action="retain"),
             dict(action="none", times=2), dict(fmt="fasta", action="mask")],
     "C17": [dict(linked=True, times=2, n_ads=3), dict(linked=True, times=3, n_ads=2), dict(minlen="8", maxlen="18"),
-            dict(revcomp=True, times=2), dict(paired=True), dict(linked=True, revcomp=True), dict(duntrim=True), dict(maxn=(0, 1, "0"))],
+            dict(revcomp=True, times=2), dict(paired=True), dict(linked=True, revcomp=True), dict(duntrim=True), dict(maxn=(0, 1, "0")),
+            dict(indexed_n=True, times=1), dict(indexed_n=True, times=2)],
     "C09": [dict(tie_order=True, index=True, times=1, action="trim", error_rate=0.1, overlap=3), dict(tie_order=True, index=True, times=1, action="mask"),
             dict(tie_order=True, times=2),
             dict(linked=True, times=2, n_ads=3), dict(n_ads=4, times=3), dict(n_ads=3, action="mask", times=2),
@@ -194,6 +207,7 @@ SCENARIOS = {
             dict(n_ads=2, same_family=True), dict(n_ads=3, same_family=True, times=2)],
     "C16": [dict(revcomp=True, cores=2, buffer_size=300, n_reads=16), dict(revcomp=True, cores=3, buffer_size=250, n_reads=18, paired=True),
             dict(revcomp=True, paired=True), dict(revcomp=True, times=2), dict(revcomp=True, error_rate=0.7, overlap=1),
+            dict(revcomp=True, times=2, n_ads=1, repeat=True), dict(revcomp=True, times=3, n_ads=2, repeat=True),
             dict(revcomp=True, action="mask"), dict(revcomp=True, paired=True, action="lowercase"), dict(revcomp=True, same_family=True, n_ads=2)],
     "C05": [dict(paired=True, pairads=True), dict(paired=True, pairads=True, same_r1=True, demux="normal", n_ads=2),
             dict(paired=True, pairads=True, same_r1=True, n_ads=3, rename="{id} a={r1.adapter_name} b={r2.adapter_name}"),
@@ -283,6 +297,11 @@ def _random_config(rng, focus, S):
                dict(opt="a", seq="CTTGTAC", restr="anchor", name=None), dict(opt="g", seq="GGTTCCA", restr=None, name=None)]
         rng.shuffle(ads)
         ads = ads[: rng.choice((3, 4))]
+    if S.get("indexed_n"):
+        # two or three anchored adapters of one kind (an index is built); the reads differ only in where N stands for A
+        opt = rng.choice(("g", "a"))
+        seqs = rng.sample(ADAPTERS, rng.choice((2, 3)))
+        ads = [dict(opt=opt, seq=q[:rng.choice((8, 10, 12))], restr="anchor", name=None) for q in seqs]
     if S.get("same_family"):
         # adapters that are near-identical: equal scores, different error counts, ties
         base = pick(rng, ADAPTERS)
@@ -335,6 +354,15 @@ def _random_config(rng, focus, S):
             C["_tie"] = True
         if S.get("repeat"):
             C["_repeat"] = True
+        if S.get("indexed_n"):
+            C["index"] = True
+            C["error_rate"] = rng.choice((0.1, 0.2, 0.25))
+            a = pick(rng, C["ads1"])
+            t = list(a["seq"])
+            pos = rng.sample(range(len(t)), rng.choice((2, 3)))
+            for i in pos:
+                t[i] = "A"
+            C["_nfamily"] = dict(opt=a["opt"], base="".join(t), pos=pos)
     if S.get("short_reads"):
         C["_short"] = True
     # post-adapter modifications
